@@ -1,0 +1,17 @@
+// Add-only test shim (build tag verif): package-level tables and constants.
+
+//go:build verif
+// +build verif
+
+package bzip2
+
+// VerifShared returns a dump of the package-level selector coders.
+func VerifShared() []uint32 {
+	return append(encSel.VerifDump(), decSel.VerifDump()...)
+}
+
+// VerifConsts returns blockSize, numBlockSyms, maxNumTrees, minNumTrees,
+// maxPrefixBits, maxNumSyms and the three magic numbers.
+func VerifConsts() []uint64 {
+	return []uint64{blockSize, numBlockSyms, maxNumTrees, minNumTrees, maxPrefixBits, maxNumSyms, hdrMagic, blkMagic, endMagic}
+}
